@@ -1,5 +1,5 @@
 import Capella.Lemmas.Decl
-import Capella.Lemmas.DeclCE
+import Capella.Lemmas.DeclCE2
 set_option linter.unusedSimpArgs false
 /-!
 Lemmas about sync-only documents: a run over a *settled* document (every entry finds exactly one object
@@ -101,7 +101,7 @@ theorem settledSync_works (g : Graph) (c : Id) : ∀ sync, SettledSync g c sync 
     · exact h.1
     · exact settledSync_works g c t h.2 w hw
 
-theorem settled_step {dflt g s s'} (hs : SettledState g s) (h : step dflt s = .ok (some s')) :
+theorem settled_step {mm g s s'} (hs : SettledState g s) (h : step mm s = .ok (some s')) :
     SettledState g s' := by
   obtain ⟨hg, hd, hag, hq⟩ := hs
   unfold step at h
@@ -204,7 +204,7 @@ theorem settled_step {dflt g s s'} (hs : SettledState g s) (h : step dflt s = .o
           · trivial
           · exact settledSync_works g par i.sync hsync w hw
 
-theorem settled_run {dflt g} : ∀ (n : Nat) (s r : State), SettledState g s → run dflt n s = some (.ok r) →
+theorem settled_run {mm g} : ∀ (n : Nat) (s r : State), SettledState g s → run mm n s = some (.ok r) →
     r.g = g ∧ r.deferred = []
   | 0, _, _, _, h => by simp [run] at h
   | n + 1, s, r, hs, h => by
@@ -348,8 +348,8 @@ theorem created_is_found (g : Graph) (par : Id) (attr : Str) (nid : Id) (cls : S
   rw [create_members, List.filter_append, hold]
   simp [isMatch_new g par attr nid cls rs rk ty hfresh hcls hk]
 
-theorem settled_apply {dflt g doc g' ps'} (hdoc : ∀ i ∈ doc, SettledInstr g i)
-    (h : apply dflt g doc = .ok (g', ps')) : g' = g := by
+theorem settled_apply {mm g doc g' ps'} (hdoc : ∀ i ∈ doc, SettledInstr g i)
+    (h : apply mm g doc = .ok (g', ps')) : g' = g := by
   obtain ⟨n, sf, hr, hg, _, _⟩ := apply_ok_run h
   have hs : SettledState g (init g doc) := by
     refine ⟨rfl, rfl, by simp [init], ?_⟩
